@@ -75,6 +75,41 @@ Inductive jstring_body : list junit -> list Z -> Prop :=
 (* the string (UTF-8 bytes) denoted by a sequence of code points *)
 Definition denote (cs : list Z) : string := string_of_runes cs.
 
+(* ================================================================ Part 1b: number syntax *)
+
+(* RFC 8259 section 6, without the leading minus (in JSONata the minus is a separate token, the
+   unary negation):  int frac? exp?   with  int = 0 | [1-9][0-9]*,  frac = . [0-9]+,
+   exp = [eE] [+-]? [0-9]+ *)
+Definition is_digit_char (c : ascii) : bool := (48 <=? byte_of c) && (byte_of c <=? 57).
+Fixpoint all_digits (s : string) : bool :=
+  match s with EmptyString => true | String c r => is_digit_char c && all_digits r end.
+Definition digits1 (s : string) : bool :=
+  match s with EmptyString => false | _ => all_digits s end.
+Definition jint (s : string) : bool :=
+  match s with
+  | EmptyString => false
+  | String c r => if byte_of c =? 48 then (match r with EmptyString => true | _ => false end)
+                  else (49 <=? byte_of c) && (byte_of c <=? 57) && all_digits r
+  end.
+Definition jfrac (s : string) : bool :=
+  match s with
+  | EmptyString => true
+  | String c d => (byte_of c =? 46) && digits1 d
+  end.
+Definition jexp (s : string) : bool :=
+  match s with
+  | EmptyString => true
+  | String c r =>
+      ((byte_of c =? 101) || (byte_of c =? 69)) &&
+      match r with
+      | String sg d => if (byte_of sg =? 43) || (byte_of sg =? 45) then digits1 d else digits1 r
+      | EmptyString => false
+      end
+  end.
+(* the texts of (unsigned) JSON numbers *)
+Inductive jnumber_text : string -> Prop :=
+| jn_parts i f e : jint i = true -> jfrac f = true -> jexp e = true -> jnumber_text (i ++ f ++ e).
+
 (* ================================================================ Part 2: literals at the AST *)
 
 (* the nodes of JSON texts: scalars, arrays of literals, objects with string keys *)
